@@ -142,4 +142,39 @@ def RSt.after (s : RSt) : List RStep → RSt
   | [] => s
   | st :: rest => RSt.after (s.step st).1 rest
 
+/-! ### `try_pass` as two steps: the unlocked look at state and deadline, then the locked transition -/
+
+/-- `check`: `current_state()` + `retry_timeout_arrived()` without holding the state mutex across both;
+`act`: `from_open_to_half_open` under the mutex; `fail`: a completion that re-opens a Half-Open breaker (new deadline) -/
+inductive SStep where
+  | check (t : Nat) (now : Nat)
+  | act (t : Nat) (now : Nat)
+  | fail (t : Nat) (now : Nat)
+  deriving Repr, DecidableEq, Inhabited
+
+structure SSt where
+  state : CState := .opn
+  retryAt : Nat := 0
+  retryMs : Nat := 1000
+  ready : List Nat := []        -- threads whose unlocked check said "Open, deadline reached" and that have not acted yet
+  deriving Repr, DecidableEq, Inhabited
+
+/-- `recheck = true`: the transition looks at the deadline again under the mutex (the code since the D16 fix);
+`recheck = false`: it only looks at the state (the code before). Output: the times at which a request became the probe,
+together with the deadline in force at that moment. -/
+def SSt.step (recheck : Bool) (s : SSt) : SStep → SSt × List (Nat × Nat)
+  | .check t now =>
+    if s.state = .opn ∧ s.retryAt ≤ now then ({ s with ready := t :: s.ready.filter (· ≠ t) }, []) else (s, [])
+  | .act t now =>
+    if t ∈ s.ready then
+      let s := { s with ready := s.ready.filter (· ≠ t) }
+      if s.state = .opn ∧ (recheck = false ∨ s.retryAt ≤ now) then ({ s with state := .halfOpen }, [(now, s.retryAt)]) else (s, [])
+    else (s, [])
+  | .fail _ now =>
+    if s.state = .halfOpen then ({ s with state := .opn, retryAt := now + s.retryMs }, []) else (s, [])
+
+def SSt.run (recheck : Bool) (s : SSt) : List SStep → List (Nat × Nat)
+  | [] => []
+  | st :: rest => let (s', out) := s.step recheck st; out ++ SSt.run recheck s' rest
+
 end Sentinel.Conc
